@@ -107,6 +107,7 @@ impl Prop for SeqExact {
     }
     fn cases(&self, tier: Tier, build: &str) -> u32 {
         match (tier, build) {
+            (Tier::Thorough, "asan") if self.is_prefetch() => 8_000,
             (Tier::Quick, _) if self.is_prefetch() => 4_000,
             (Tier::Thorough, _) if self.is_prefetch() => 80_000,
             (Tier::Quick, "fast") => 30_000,
@@ -116,7 +117,11 @@ impl Prop for SeqExact {
         }
     }
     fn builds(&self, _tier: Tier) -> Vec<&'static str> {
-        if self.is_prefetch() { vec!["fast", "checked", "noprefetch"] } else { vec!["fast", "checked"] }
+        if self.is_prefetch() {
+            if _tier == Tier::Thorough { vec!["fast", "checked", "noprefetch", "asan"] } else { vec!["fast", "checked", "noprefetch"] }
+        } else {
+            vec!["fast", "checked"]
+        }
     }
     fn transcript_pairs(&self) -> Vec<(&'static str, &'static str)> {
         if self.is_prefetch() { vec![("fast", "noprefetch")] } else { vec![] }
